@@ -532,6 +532,8 @@ def _collect_binding_information_from_comparison(
             bound, unbound = _collect_binding_information_from_equal(lhs, rhs, bound_variables)
             bound_variables.update(bound)
             unbound_variables.update(unbound)
+    # every occurrence of the anonymous variable is a variable of its own: one does not bind another
+    bound_variables = set(filter(lambda var: var.name != "_", bound_variables))
     return bound_variables, unbound_variables - bound_variables
 
 
